@@ -9,23 +9,6 @@ import ZoektModel.C11.Model
 namespace ZoektModel.C11
 open ZoektModel
 
-/-- `readHeader`, second half: the section count read at `toc.off` -/
-def readHeaderCount (f : File) (toc : SimpleSection) : Outcome (SimpleSection × Nat × Nat) :=
-  let r := rdFixed f 4 ⟨toc.off⟩
-  match r.1 with
-  | .ok n => .ok (toc, n, r.2.off)
-  | .err e => .err e
-  | .panic s => .panic s
-  | .diverge => .diverge
-
-/-- `reader.readHeader`, same function as `readHeader` (Model.lean) written with projections (`readHeader2_eq`) -/
-def readHeader2 (f : File) : Outcome (SimpleSection × Nat × Nat) :=
-  match (readSimple f (headerStart f)).1 with
-  | .ok toc => readHeaderCount f toc
-  | .err e => .err e
-  | .panic s => .panic s
-  | .diverge => .diverge
-
 inductive Kind where
   | simple | compound | lazy
   deriving Repr, DecidableEq
@@ -39,77 +22,36 @@ structure SecVal where
 
 def SecVal.zero : SecVal := ⟨⟨0, 0⟩, ⟨0, 0⟩, []⟩
 
-/-- outcome of a section operation: the value (for `read`) and the reader afterwards -/
-def secRead (f : File) (k : Kind) (r : Rd) : Outcome SecVal × Rd :=
+/-- a reader action: an outcome and the reader afterwards (the reader moves even when the action fails) -/
+abbrev RdM (α : Type) := Rd → Outcome α × Rd
+
+def RdM.pure {α} (a : α) : RdM α := fun r => (.ok a, r)
+
+def RdM.bind {α β} (m : RdM α) (k : α → RdM β) : RdM β := fun r =>
+  match (m r).1 with
+  | .ok a => k a (m r).2
+  | .err e => (.err e, (m r).2)
+  | .panic p => (.panic p, (m r).2)
+  | .diverge => (.diverge, (m r).2)
+
+/-- an operation that does not move the reader (`readSectionU32(r.r, …)`, `r.r.Read(…)`) -/
+def RdM.lift {α} (o : Outcome α) : RdM α := fun r => (o, r)
+
+/-- `section.read` by kind: simple = `off`, `sz`; compound = data, index, then the offsets table; lazy = data, index -/
+def secRead (f : File) (k : Kind) : RdM SecVal :=
   match k with
-  | .simple =>
-    let a := readSimple f r
-    match a.1 with
-    | .ok s => (.ok ⟨s, ⟨0, 0⟩, []⟩, a.2)
-    | .err e => (.err e, a.2)
-    | .panic p => (.panic p, a.2)
-    | .diverge => (.diverge, a.2)
-  | .compound =>
-    let a := readSimple f r
-    match a.1 with
-    | .ok d =>
-      let b := readSimple f a.2
-      match b.1 with
-      | .ok i =>
-        match readSectionBE 4 f i with
-        | .ok offs => (.ok ⟨d, i, offs⟩, b.2)
-        | .err e => (.err e, b.2)
-        | .panic p => (.panic p, b.2)
-        | .diverge => (.diverge, b.2)
-      | .err e => (.err e, b.2)
-      | .panic p => (.panic p, b.2)
-      | .diverge => (.diverge, b.2)
-    | .err e => (.err e, a.2)
-    | .panic p => (.panic p, a.2)
-    | .diverge => (.diverge, a.2)
-  | .lazy =>
-    let a := readSimple f r
-    match a.1 with
-    | .ok d =>
-      let b := readSimple f a.2
-      match b.1 with
-      | .ok i => (.ok ⟨d, i, []⟩, b.2)
-      | .err e => (.err e, b.2)
-      | .panic p => (.panic p, b.2)
-      | .diverge => (.diverge, b.2)
-    | .err e => (.err e, a.2)
-    | .panic p => (.panic p, a.2)
-    | .diverge => (.diverge, a.2)
+  | .simple => RdM.bind (readSimple f) fun s => RdM.pure ⟨s, ⟨0, 0⟩, []⟩
+  | .compound => RdM.bind (readSimple f) fun d => RdM.bind (readSimple f) fun i =>
+      RdM.bind (RdM.lift (readSectionBE 4 f i)) fun offs => RdM.pure ⟨d, i, offs⟩
+  | .lazy => RdM.bind (readSimple f) fun d => RdM.bind (readSimple f) fun i => RdM.pure ⟨d, i, []⟩
 
 /-- `skip`: simple = two U32; compound and lazy = `data.skip`, `index.read` (which stores the index section in the
     struct it is called on), then `Read(index.off, index.sz)`. Returns the index section that was stored, if any. -/
-def secSkip (f : File) (k : Kind) (r : Rd) : Outcome (Option SimpleSection) × Rd :=
+def secSkip (f : File) (k : Kind) : RdM (Option SimpleSection) :=
   match k with
-  | .simple =>
-    let a := readSimple f r
-    match a.1 with
-    | .ok _ => (.ok none, a.2)
-    | .err e => (.err e, a.2)
-    | .panic p => (.panic p, a.2)
-    | .diverge => (.diverge, a.2)
-  | _ =>
-    let a := readSimple f r
-    match a.1 with
-    | .ok _ =>
-      let b := readSimple f a.2
-      match b.1 with
-      | .ok i =>
-        match f.read i.off i.sz with
-        | .ok _ => (.ok (some i), b.2)
-        | .err e => (.err e, b.2)
-        | .panic p => (.panic p, b.2)
-        | .diverge => (.diverge, b.2)
-      | .err e => (.err e, b.2)
-      | .panic p => (.panic p, b.2)
-      | .diverge => (.diverge, b.2)
-    | .err e => (.err e, a.2)
-    | .panic p => (.panic p, a.2)
-    | .diverge => (.diverge, a.2)
+  | .simple => RdM.bind (readSimple f) fun _ => RdM.pure none
+  | _ => RdM.bind (readSimple f) fun _ => RdM.bind (readSimple f) fun i =>
+      RdM.bind (RdM.lift (f.read i.off i.sz)) fun _ => RdM.pure (some i)
 
 /-- the known tagged sections (`sectionsTaggedList`) with their kinds; the last three share one unused variable -/
 def knownSections : List (String × Kind) :=
@@ -147,65 +89,42 @@ abbrev TocState := List (String × SecVal)
 def TocState.set (st : TocState) (tag : String) (v : SecVal) : TocState :=
   (tag, v) :: st.filter (fun p => p.1 != tag)
 
-/-- one iteration of the tagged loop. `none` in the result = continue with the new state and reader. -/
-def tocStep (f : File) (tags : List Bytes) (st : TocState) (r : Rd) : Outcome (TocState × Rd) :=
-  let a := rdStr f r
-  match a.1 with
-  | .ok tagBytes =>
-    let b := rdVarint f a.2
-    match b.1 with
-    | .ok kind =>
-      let known := lookupKnown tagBytes
-      let skipFilter := !tags.isEmpty && !tags.contains tagBytes
-      -- `sectionKind(kind)` is an `int`: kinds ≥ 2^63 become negative, never equal to a section's kind
-      let kindOk := match known with
-        | some k => kindOfNat kind == some k.2
-        | none => false
-      if kindOk then
-        match known with
-        | some (tag, k) =>
-          if skipFilter then
-            -- skipped because of the tag filter: `skip` runs on the real section and leaves its index field set
-            let c := secSkip f k b.2
-            match c.1 with
-            | .ok (some i) => .ok (st.set tag { (st.lookup tag).getD SecVal.zero with idx := i }, c.2)
-            | .ok none => .ok (st, c.2)
-            | .err e => .err e
-            | .panic p => .panic p
-            | .diverge => .diverge
-          else
-            let c := secRead f k b.2
-            match c.1 with
-            | .ok v => .ok (st.set tag v, c.2)
-            | .err e => .err e
-            | .panic p => .panic p
-            | .diverge => .diverge
-        | none => .panic "unreachable"
-      else
-        -- unrecognised section: skip over it with a dummy section of the kind the file names
-        match kindOfNat kind with
-        | some k =>
-          let c := secSkip f k b.2
-          match c.1 with
-          | .ok _ => .ok (st, c.2)
-          | .err e => .err e
-          | .panic p => .panic p
-          | .diverge => .diverge
-        | none => .err "unknown section kind"
-    | .err e => .err e
-    | .panic p => .panic p
-    | .diverge => .diverge
-  | .err e => .err e
-  | .panic p => .panic p
-  | .diverge => .diverge
+/-- what the loop body does once tag and kind are read -/
+def tocEntry (f : File) (tags : List Bytes) (st : TocState) (tagBytes : Bytes) (kind : Nat) : RdM TocState :=
+  let known := lookupKnown tagBytes
+  let skipFilter := !tags.isEmpty && !tags.contains tagBytes
+  -- `sectionKind(kind)` is an `int`: kinds ≥ 2^63 become negative, never equal to a section's kind
+  match known with
+  | some (tag, k) =>
+    if kindOfNat kind = some k then
+      if skipFilter then
+        -- skipped because of the tag filter: `skip` runs on the real section and leaves its index field set
+        RdM.bind (secSkip f k) fun oi =>
+          match oi with
+          | some i => RdM.pure (st.set tag { (st.lookup tag).getD SecVal.zero with idx := i })
+          | none => RdM.pure st
+      else RdM.bind (secRead f k) fun v => RdM.pure (st.set tag v)
+    else
+      match kindOfNat kind with
+      | some k' => RdM.bind (secSkip f k') fun _ => RdM.pure st
+      | none => RdM.lift (.err "unknown section kind")
+  | none =>
+    -- unrecognised section: skip over it with a dummy section of the kind the file names
+    match kindOfNat kind with
+    | some k' => RdM.bind (secSkip f k') fun _ => RdM.pure st
+    | none => RdM.lift (.err "unknown section kind")
+
+/-- one iteration of the tagged loop: `tag, err := r.Str(); kind, err := r.Varint(); …` -/
+def tocStep (f : File) (tags : List Bytes) (st : TocState) : RdM TocState :=
+  RdM.bind (rdStr f) fun tagBytes => RdM.bind (rdVarint f) fun kind => tocEntry f tags st tagBytes kind
 
 /-- the tagged loop: `for r.off < tocSection.off+tocSection.sz` (uint32 sum) -/
 def tocLoop (f : File) (tags : List Bytes) (stop : Nat) : Nat → TocState → Rd → Outcome TocState
   | 0, _, _ => .diverge
   | fuel + 1, st, r =>
     if r.off < stop then
-      match tocStep f tags st r with
-      | .ok (st', r') => tocLoop f tags stop fuel st' r'
+      match (tocStep f tags st r).1 with
+      | .ok st' => tocLoop f tags stop fuel st' (tocStep f tags st r).2
       | .err e => .err e
       | .panic p => .panic p
       | .diverge => .diverge
@@ -215,16 +134,15 @@ def tocLoop (f : File) (tags : List Bytes) (stop : Nat) : Nat → TocState → R
 def tocLegacy (f : File) : List (String × Kind) → TocState → Rd → Outcome TocState
   | [], st, _ => .ok st
   | (tag, k) :: rest, st, r =>
-    let c := secRead f k r
-    match c.1 with
-    | .ok v => tocLegacy f rest (st.set tag v) c.2
+    match (secRead f k r).1 with
+    | .ok v => tocLegacy f rest (st.set tag v) (secRead f k r).2
     | .err e => .err e
     | .panic p => .panic p
     | .diverge => .diverge
 
 /-- `reader.readTOCSections(toc, tags)` -/
 def readTOCSections (f : File) (tags : List Bytes) : Outcome TocState :=
-  match readHeader2 f with
+  match readHeader f with
   | .ok (toc, count, pos) =>
     if count = 0 then
       tocLoop f tags ((toc.off + toc.sz) % two32) (f.data.length + 2) [] ⟨pos⟩
